@@ -7,10 +7,12 @@
 package main
 
 import (
+	"bytes"
 	"encoding/json"
 	"fmt"
 	"hash/fnv"
 	"os"
+	"os/exec"
 	"path/filepath"
 	"sort"
 	"strings"
@@ -32,6 +34,12 @@ type Sched struct {
 	Tape     []uint32 `json:"tape,omitempty"`
 	Patterns []int    `json:"patterns,omitempty"` // nil: ./... ; else package indices, in this order
 	Warm     int      `json:"warm"`               // -1: fresh cache; else reuse the disk left by sched #Warm
+	// Fresh: this run happens in an OS process of its own (a child of the
+	// worker): the linter is a command and starts every run with untouched
+	// package-level state, while the other simulated runs of a case share
+	// one OS process, where whatever run came first has filled every
+	// process-wide memo of the code under test
+	Fresh bool `json:"fresh,omitempty"`
 }
 
 type Case struct {
@@ -444,6 +452,39 @@ func execute(c Case, info *execInfo) batch.Result {
 			return batch.Result{Infra: err.Error()}
 		}
 		inv := simlint.Inv{Args: c.args(dir, s), Dir: dir, Env: c.Env}
+		if s.Fresh && s.Warm < 0 {
+			co, err := runInChild(&c, s, dir)
+			if err != nil {
+				return batch.Result{Infra: "fresh-process run: " + err.Error()}
+			}
+			res.Counters["fresh_process_runs"]++
+			if info != nil {
+				info.tapes = append(info.tapes, co.Tape)
+			}
+			res.Steps += co.Steps
+			digests = append(digests, co.Digest^h64(strings.ReplaceAll(co.Stdout, dir, "$DIR")))
+			what := fmt.Sprintf("schedule #%d in an OS process of its own (strategy %s, %d workers, seed %d, patterns=%v)", i, verifsim.Strategy(s.Strategy), s.Procs, s.Seed, s.Patterns)
+			if co.Class != "" {
+				fail(co.Class, "%s: %s", what, co.Detail)
+				continue
+			}
+			out := simlint.Out{Stdout: co.Stdout, Stderr: co.Stderr, Exit: co.Exit}
+			if s.Patterns == nil {
+				if !out.Same(ref) {
+					fail("output-differs-from-reference", "%s printed something else than the reference run (FIFO, 1 worker):\n%s\nstderr: %s", what, strings.ReplaceAll(simlint.Diff(ref, out), dir, "$DIR"), out.Stderr)
+				}
+			} else {
+				dirs := map[string]bool{}
+				for _, p := range s.Patterns {
+					dirs[filepath.Join(dir, fmt.Sprintf("p%d", p))] = true
+				}
+				want, got := restrict(ref.Stdout, dirs), restrict(out.Stdout, dirs)
+				if want != got {
+					fail("output-depends-on-patterns", "%s: problems located in the named packages differ from those the ./... run reports for them:\n%s", what, strings.ReplaceAll(simlint.Diff(simlint.Out{Stdout: want}, simlint.Out{Stdout: got}), dir, "$DIR"))
+				}
+			}
+			continue
+		}
 		out, fs2, vr := simlint.RunOne(simCfg(s), fs, inv)
 		disks[i] = fs2
 		if info != nil {
@@ -533,6 +574,7 @@ func (engine) Generate(seed uint64, index int, tier string) json.RawMessage {
 	}
 	m := genmod.Generate(&r, npkg, genmod.Shapes[r.N(len(genmod.Shapes))], tests)
 	c := Case{Mod: *m, Tests: tests}
+	freshCase := r.P(200)
 	c.Flags = []string{"-checks", []string{"all", "inherit", "all,-ST1000", "SA*,U1000"}[r.N(4)], fmt.Sprintf("-tests=%v", tests)}
 	if r.P(150) {
 		c.Flags = append(c.Flags, "-go", []string{"1.21", "1.22", "1.20"}[r.N(3)])
@@ -570,6 +612,25 @@ func (engine) Generate(seed uint64, index int, tier string) json.RawMessage {
 			s.Warm = r.N(i)
 		}
 		c.Scheds = append(c.Scheds, s)
+	}
+	if mode == "" && freshCase {
+		// up to four runs in OS processes of their own (each costs a process
+		// start and a `go list`)
+		n := 0
+		for i := range c.Scheds {
+			if c.Scheds[i].Warm < 0 && n < 4 && r.P(300) {
+				used := false
+				for j := range c.Scheds {
+					if c.Scheds[j].Warm == i {
+						used = true
+					}
+				}
+				if !used {
+					c.Scheds[i].Fresh = true
+					n++
+				}
+			}
+		}
 	}
 	if mode == "" && r.P(300) {
 		// one subset run before the reference (costs a `go list` of its own)
@@ -774,7 +835,7 @@ func (engine) Describe() batch.Description {
 	}
 	sort.Strings(strs)
 	return batch.Description{
-		Rule: "each case: one seeded module (2-7 packages, thorough 2-12; chain/diamond/fan/two-component/random import graphs; facts flowing through dependencies (deprecation, purity, nilness), directives, configuration files, optional test variants, build tags, GOOS) linted once under the reference conditions (FIFO schedule, 1 worker, canonical map order, fresh cache) and then under 40 (thorough 80) seeded (schedule strategy in {" + strings.Join(strs, ",") + "}, worker count in {1,2,3,4,8,16}, map iteration order, directory order) combinations, a quarter of them with a seeded subset and order of package patterns (in 30% of the cases one more subset run happens BEFORE the reference run, with a package graph loaded for the subset alone), a fifth on a cache warmed by an earlier run of the same case; an evaluation is one simulated linter run; distinct = distinct (kernel event digest, output) pairs; non-trivial = the module has at least one problem.",
+		Rule: "each case: one seeded module (2-7 packages, thorough 2-12; chain/diamond/fan/two-component/random import graphs; facts flowing through dependencies (deprecation, purity, nilness), directives, configuration files, optional test variants, build tags, GOOS) linted once under the reference conditions (FIFO schedule, 1 worker, canonical map order, fresh cache) and then under 40 (thorough 80) seeded (schedule strategy in {" + strings.Join(strs, ",") + "}, worker count in {1,2,3,4,8,16}, map iteration order, directory order) combinations, a quarter of them with a seeded subset and order of package patterns (in 30% of the cases one more subset run happens BEFORE the reference run, with a package graph loaded for the subset alone; in 20% of the cases up to four of the runs happen in OS processes of their own, i.e. with untouched package-level state of the code under test), a fifth on a cache warmed by an earlier run of the same case; an evaluation is one simulated linter run; distinct = distinct (kernel event digest, output) pairs; non-trivial = the module has at least one problem.",
 		Assumptions: []string{
 			"`go list -export` and the compiler are outside the simulator, run once per module state (memoised) and trusted to be deterministic",
 			"map iteration order is controlled in lintcmd, lintcmd/runner, go/ir and unused; inside other analyzers it is the runtime's (a difference it causes is still detected, but replays only statistically)",
@@ -785,7 +846,99 @@ func (engine) Describe() batch.Description {
 	}
 }
 
+// childOut is what a fresh-process run reports to its parent.
+type childOut struct {
+	Stdout, Stderr string
+	Exit           int
+	Digest         uint64
+	Steps          int
+	Tape           []uint32
+	Class, Detail  string
+}
+
+type childIn struct {
+	Case    Case
+	Dir     string
+	Scratch string
+	Tier    string
+}
+
+// runInChild executes one schedule of a case in a child OS process (this
+// binary again, with VERIF_CHILD_CASE set). The parent has written the module
+// and holds its lock.
+func runInChild(c *Case, s *Sched, dir string) (childOut, error) {
+	var co childOut
+	self, err := os.Executable()
+	if err != nil {
+		return co, err
+	}
+	c2 := *c
+	c2.Pre = nil
+	s2 := *s
+	s2.Fresh = false
+	c2.Scheds = []Sched{s2}
+	b, _ := json.Marshal(childIn{Case: c2, Dir: dir, Scratch: batch.Scratch, Tier: batch.Tier})
+	f, err := os.CreateTemp(batch.Scratch, "verif-child-*.json")
+	if err != nil {
+		return co, err
+	}
+	defer os.Remove(f.Name())
+	f.Write(b)
+	f.Close()
+	cmd := exec.Command(self)
+	cmd.Env = append(os.Environ(), "VERIF_CHILD_CASE="+f.Name())
+	var stdout, stderr bytes.Buffer
+	cmd.Stdout, cmd.Stderr = &stdout, &stderr
+	if err := cmd.Run(); err != nil {
+		return co, fmt.Errorf("child: %v\n%s", err, lastBytes(stderr.String(), 3000))
+	}
+	if err := json.Unmarshal(stdout.Bytes(), &co); err != nil {
+		return co, fmt.Errorf("child output: %v\n%s", err, lastBytes(stdout.String()+stderr.String(), 3000))
+	}
+	return co, nil
+}
+
+func lastBytes(s string, n int) string {
+	if len(s) > n {
+		return s[len(s)-n:]
+	}
+	return s
+}
+
+func childMain(path string) {
+	b, err := os.ReadFile(path)
+	if err != nil {
+		fmt.Fprintln(os.Stderr, err)
+		os.Exit(2)
+	}
+	var in childIn
+	if err := json.Unmarshal(b, &in); err != nil {
+		fmt.Fprintln(os.Stderr, err)
+		os.Exit(2)
+	}
+	batch.Scratch, batch.Tier = in.Scratch, in.Tier
+	c := &in.Case
+	s := &c.Scheds[0]
+	verifhook.State = c.Mod.Digest()
+	var fs *simos.FS
+	if c.Tests {
+		if fs, err = simlint.StdBase(batch.Scratch, c.Flags, c.Env); err != nil {
+			fmt.Fprintln(os.Stderr, err)
+			os.Exit(2)
+		}
+	}
+	out, _, vr := simlint.RunOne(simCfg(s), fs, simlint.Inv{Args: c.args(in.Dir, s), Dir: in.Dir, Env: c.Env})
+	co := childOut{Stdout: out.Stdout, Stderr: out.Stderr, Exit: out.Exit, Digest: vr.Digest, Steps: vr.Steps, Tape: vr.Tape}
+	co.Class, co.Detail = simlint.Problems(vr)
+	enc, _ := json.Marshal(co)
+	os.Stdout.Write(enc)
+	os.Exit(0)
+}
+
 func main() {
+	if p := os.Getenv("VERIF_CHILD_CASE"); p != "" {
+		childMain(p)
+	}
 	var rest []string
 	for _, a := range os.Args[1:] {
 		if strings.HasPrefix(a, "-family=") {
